@@ -249,6 +249,9 @@ func term(v ssa.Value, depth int, onstack map[ssa.Value]bool) string {
 	case *ssa.BinOp:
 		return "(" + term(x.X, depth+1, onstack) + " " + x.Op.String() + " " + term(x.Y, depth+1, onstack) + ")"
 	case *ssa.Phi:
+		if _, ok := CountedLoopIndex(x); ok {
+			return "(phi:rangeindex + 1)"
+		}
 		if a := ThreadedValue(x); a != ssa.Value(x) && !onstack[x] {
 			onstack[x] = true
 			defer delete(onstack, x)
